@@ -959,13 +959,38 @@ def compare(case, obs, model):
     return out
 
 
+def _on_razor_edge(case, obs):
+    """some aggregate of this query lies within 1e-9 (relative) of its bound while the arithmetic is NOT exact (a phase angle
+    other than 0, or a non-dyadic stream): numpy's exp(1j·φ) and the model's cos / sin may differ in the last bit, so the two
+    DECISIONS may legitimately differ there (DESIGN §4); off the exact stream such inputs are not compared on decisions"""
+    try:
+        if "S" not in obs:
+            return False
+        rows, exact, _T = _independent(case, obs["S"], obs.get("built_tol"))
+        if exact:
+            return False
+        for r in rows:
+            b = float(r["bound"])
+            for key in ("mag", "doc", "blind"):
+                if any(abs(float(x) - b) <= 1e-9 * max(1.0, abs(b)) for x in r[key]):
+                    return True
+    except Exception:  # noqa: BLE001
+        return False
+    return False
+
+
 def _compare_one(case, obs, model):
     out = []
+    razor = None
     for k in ("iface", "iface_lin", "net", "net_lin", "alg", "alg_lin", "alg1", "alg1_lin"):
         if k in obs:
             if k not in model:
                 out.append(f"{k}: impl={obs[k]} model=<absent>")
             elif obs[k] != _mres(model[k]):
+                if isinstance(obs[k], bool) and isinstance(_mres(model[k]), bool):
+                    razor = _on_razor_edge(case, obs) if razor is None else razor
+                    if razor:
+                        continue
                 out.append(f"{k}: impl={obs[k]} model={_mres(model[k])}")
     mi, ii = model["infra"], obs["infra"]
     if (ii["err"] is None) != (mi["err"] is None):
